@@ -33,6 +33,19 @@ Import ListNotations.
 Local Open Scope string_scope.
 Definition charged (ps : list particle) : list particle :=
   filter (fun p => match get_slot 12 p with Some c => negb (Qeq_bool c 0) | None => false end) ps.
+Definition check_jetscape_f (tf ti : string -> option Q) (pv : Q -> bool) (pc : Q -> Q) (sq : Q -> Q)
+           (file : list line) (defstr : string) (sel : selector) (obs : jobserved) : nat :=
+  match jload tf ti pv pc sq (Some charged) file defstr sel, obs with
+  | Err e, JObsErr e' => if err_eqb e e' then 0 else 2
+  | Ok ld, JObsOk ev n c two s1 s2 =>
+    if negb (list_eqb (list_eqb jparticle_eqb) (j_events ld) ev) then 3
+    else if negb (j_nevents ld =? n)%Z then 4
+    else if negb (list_eqb zz_eqb (j_counts ld) c) then 5
+    else if negb (Bool.eqb (j_counts_2d ld) two) then 6
+    else 0
+  | Ok _, JObsErr _ => 9
+  | Err _, JObsOk _ _ _ _ _ _ => 10
+  end%nat.
 Definition check_oscar_f (tf ti : string -> option Q) (pv : Q -> bool) (file : list line) (sel : selector)
            (obs : observed) : nat :=
   let r := ld <- load tf ti pv (Some charged) file sel ;; imps <- impact_parameters tf ld ;; Ok (ld, imps) in
@@ -82,7 +95,8 @@ def coq_case(case, obs):
     if case["kind"] == "jet":
         tf, ti, pv, pc, sq = J.tables(lines)
         word = "N_hadrons" if case["doc"]["ptype"] == "hadron" else "N_partons"
-        return (f"(check_jetscape (table {tf}) (table {ti}) (pvtable {pv}) (qtable {pc}) (qtable {sq}) "
+        fn = "check_jetscape_f" if case["filt"] else "check_jetscape"
+        return (f"({fn} (table {tf}) (table {ti}) (pvtable {pv}) (qtable {pc}) (qtable {sq}) "
                 f"{J.coq_file(lines)} {C.coq_str(word)} {sel} {J.coq_observed(obs)})")
     tf, ti = G.token_tables(lines)
     pv = G.pdg_table([l.split(" ") for l in lines])
@@ -161,6 +175,14 @@ def oracle_filtered(case, tmp):
         sizes = []
     if ca.size and (ca.ndim != 2 or ca[:, 1].tolist() != sizes):
         return f"events={sel} + filters=: num_output_per_event() = {ca.tolist()} but the events held have sizes {sizes}"
+    held_b = [e for e in b.particle_objects_list()]
+    if ca.size and ca.ndim == 2 and len(ea) == len([e for e in a.particle_objects_list()]):
+        # no event was dropped by the filter path: the labels are the original ones
+        lo = 0 if sel is None else (sel if isinstance(sel, int) else sel[0])
+        base = lo + (1 if case["kind"] == "jet" else 0)
+        want_labels = list(range(base, base + len(sizes)))
+        if len(_open(case, tmp, **kw).particle_objects_list()) == len(sizes) and ca[:, 0].tolist() != want_labels:
+            return f"events={sel} + filters=: event labels {ca[:, 0].tolist()}, the selected events are {want_labels}"
     if a.num_events() != len(sizes):
         return f"events={sel} + filters=: num_events() = {a.num_events()} but {len(sizes)} events are held"
     try:
@@ -183,7 +205,7 @@ def correspondence(ctx, model_ok=True):
             base = {"kind": "oscar", "doc": d, "text": G.render(d)}
         n = len(d["events"])
         for sel in selectors(n, ctx.rng, ctx.quick):
-            for filt in ([False, True] if base["kind"] == "oscar" else [False]):
+            for filt in [False, True]:
                 c = dict(base)
                 c["sel"] = list(sel) if isinstance(sel, tuple) else sel
                 c["filt"] = filt
